@@ -69,6 +69,11 @@ impl SortedUintVecConfig {
         if self.sample_width < 16 || self.sample_width > 64 {
             return Err(ZiporaError::invalid_data("sample_width must be 16-64"));
         }
+        if self.sample_width > 56 && self.sample_width < 64 {
+            // store_bits/extract_bits move a field through one u64: a 57..63-bit field at a
+            // non-byte-aligned offset would need a ninth byte
+            return Err(ZiporaError::invalid_data("sample_width 57-63 is not supported (use 56 or 64)"));
+        }
         Ok(())
     }
 
@@ -747,6 +752,13 @@ impl SortedUintVecBuilder {
             }
 
             let block_min = values[block_start];
+
+            // Check that the block minimum fits in sample_width bits (store_bits would mask it silently)
+            if config.sample_width < 64 && block_min >= (1u64 << config.sample_width) {
+                return Err(ZiporaError::invalid_data(
+                    format!("value {} too large for sample_width {}", block_min, config.sample_width)
+                ));
+            }
             
             // Store block minimum in index
             Self::store_sample_static(&mut result.index, block_idx, block_min, config.sample_width)?;
